@@ -207,7 +207,7 @@ func (e *Exec) closeHandlesRandomOrder() {
 // process holds no descriptor or mapping of the store directory, and the
 // directory holds only the current data file (C15).
 func (e *Exec) checkLeaks() {
-	if e.opts.Backing != "store" {
+	if !e.isStore() {
 		return
 	}
 	e.out.Checks++
